@@ -1018,6 +1018,31 @@ impl Issuer {
         Ok((rev_key_pub, rev_key_priv))
     }
 
+    /// verification hook: the issuer's check of the blinded-secrets proof, on its own
+    #[cfg(feature = "verif")]
+    pub fn verif_check_blinded_credential_secrets_correctness_proof(
+        blinded_cred_secrets: &BlindedCredentialSecrets,
+        blinded_cred_secrets_correctness_proof: &BlindedCredentialSecretsCorrectnessProof,
+        nonce: &Nonce,
+        cred_pr_pub_key: &CredentialPrimaryPublicKey,
+    ) -> ClResult<()> {
+        Self::_check_blinded_credential_secrets_correctness_proof(
+            blinded_cred_secrets,
+            blinded_cred_secrets_correctness_proof,
+            nonce,
+            cred_pr_pub_key,
+        )
+    }
+
+    /// verification hook: the credential context `m2` for a prover id and revocation index
+    #[cfg(feature = "verif")]
+    pub fn verif_gen_credential_context(
+        prover_id: &str,
+        rev_idx: Option<u32>,
+    ) -> ClResult<BigNumber> {
+        Self::_gen_credential_context(prover_id, rev_idx)
+    }
+
     fn _check_blinded_credential_secrets_correctness_proof(
         blinded_cred_secrets: &BlindedCredentialSecrets,
         blinded_cred_secrets_correctness_proof: &BlindedCredentialSecretsCorrectnessProof,
